@@ -1174,6 +1174,12 @@ def m_res_unwrap_or(sim, st, c):
     return c["args"][1] if v.vname == "Err" else v.fields[0]
 
 
+@model("std::mem::drop")
+def m_mem_drop(sim, st, c):
+    sim.drop_value(st, c["args"][0])
+    return UNIT
+
+
 @model("std::mem::replace")
 def m_mem_replace(sim, st, c):
     p = sim.deref_value(st, c["args"][0])
